@@ -8,7 +8,7 @@ Proof units:
 import z3
 
 from pyvc.exec import Raise, Unsupported
-from pyvc.sym import (VInt, VBool, VStr, VBytes, VNone, NONE, VTuple, VInst, VOpaque, VUnion, VConc, VFunc, VSeq, VMap,
+from pyvc.sym import (VList, VInt, VBool, VStr, VBytes, VNone, NONE, VTuple, VInst, VOpaque, VUnion, VConc, VFunc, VSeq, VMap,
                       concrete_of, mk_str, zand, zor, TOpt, TOpaque, TSeq)
 from pyvc.models import WS_STR, is_ws_char
 from contracts import control as K
@@ -256,6 +256,41 @@ def unit_event(meth):
     return run
 
 
+class _Owner(object):
+    """a listener object whose bound method is registered: every attribute access builds a fresh bound-method object that is
+    equal to, but not the same object as, the one registered earlier"""
+    def heard(self, data):
+        pass
+
+
+def unit_unlisten_bound_method():
+    def run(ctx):
+        ctx.fn(MODULE, 'Event.unlisten')
+        import txtorcon.torcontrolprotocol as tcp
+        ex = ctx.ex
+        path = ctx.new_path()
+        ev = ex.new_inst(path, tcp.Event)
+        owner, other = _Owner(), _Owner()
+        registered = [VConc(other.heard), VConc(owner.heard), VConc(print)]
+        lst = ex.new_list(path, registered)
+        path.heap[('f', ev.oid, 'callbacks')] = lst
+        path.heap[('f', ev.oid, 'name')] = VStr(z3.String('evname'))
+        ctx.cover('pre_satisfiable', path)
+        outs = ex.getattr_v(path, ev, 'unlisten')
+        outs = ex.call(outs[0][0], outs[0][1], [VConc(owner.heard)], {})      # a fresh, equal bound method
+        for p, r in outs:
+            if isinstance(r, Raise):
+                ctx.oblige('post.unlisten_finds_an_equal_bound_method', p, B(False))
+                continue
+            now = p.heap[('f', ev.oid, 'callbacks')]
+            items = ex.list_items(p, now) if isinstance(now, VList) else None
+            ok = items is not None and len(items) == 2 and items[0] is registered[0] and items[1] is registered[2]
+            ctx.oblige('post.unlisten_removes_the_listener_that_equals_the_argument', p, B(ok),
+                       clause='... and to nobody else (a removed listener - here a bound method, a fresh but equal object at every '
+                              'attribute access - is no longer registered)')
+    return run
+
+
 # ---- add / remove listener --------------------------------------------------------------------
 
 def events_inv_at(path, pre_oid, name_t, H=None):
@@ -377,6 +412,7 @@ def units():
             out.append(('C02/lineReceived@%s/%s/event' % (st, ck), unit_event_line(st, ck)))
     for m in ('listen', 'unlisten', 'got_update'):
         out.append(('C02/Event.%s' % m, unit_event(m)))
+    out.append(('C02/Event.unlisten@bound_method', unit_unlisten_bound_method()))
     for m in ('add_event_listener', 'remove_event_listener'):
         out.append(('C02/%s' % m, unit_listener(m)))
     return out
@@ -447,15 +483,25 @@ def run_event_session(script, cuts_mode='whole'):
         return [n for n in order_subscribed]
     order_subscribed = []
 
+    class Holder(object):
+        """half of the listeners are bound methods: add and remove then see equal but distinct callable objects"""
+        def __init__(self, fn):
+            self.fn = fn
+
+        def call(self, payload):
+            return self.fn(payload)
+
     def do_add(name, lid, behaviour):
         fn = mk(lid, name, behaviour)
+        if sum(map(ord, str(lid))) % 2:
+            fn = Holder(fn)
         listeners[lid] = (name, fn)
         first = not registered.get(name)
         registered.setdefault(name, []).append(lid)
         if first:
             order_subscribed.append(name)
         q0 = len(proto.commands) + (1 if proto.command else 0)
-        proto.add_event_listener(name, fn)
+        proto.add_event_listener(name, fn.call if isinstance(fn, Holder) else fn)
         q1 = len(proto.commands) + (1 if proto.command else 0)
         check_sub(first, q0, q1, 'add %s' % name)
 
@@ -466,7 +512,7 @@ def run_event_session(script, cuts_mode='whole'):
         if last:
             order_subscribed.remove(name)
         q0 = len(proto.commands) + (1 if proto.command else 0)
-        proto.remove_event_listener(name, fn)
+        proto.remove_event_listener(name, fn.call if isinstance(fn, Holder) else fn)
         q1 = len(proto.commands) + (1 if proto.command else 0)
         check_sub(last, q0, q1, 'remove %s' % name)
 
